@@ -16,7 +16,7 @@ generated from `address.rs` (`Octo.AddrGen`).  Property theorems only; the equiv
 * (b) `c13_generated_*_encode`, `c02_generated_udp_encode`: the encoders append exactly the model's bytes.
 * (c) `c07_generated_*_never_panics`; `c13_generated_command_request_iff`; `socks5HandshakeGen` (the handshake rebuilt from the
   generated decoders and encoders) `= Hs.socks5Handshake`, hence `c13_generated_socks5_tunnel_is_admitted`,
-  `c13_generated_socks5_decided_is_final` (and `…_tunnel_inv`, `…_undecided_before_end`); `c02_generated_socks5_udp_roundtrip`.
+  `c13_generated_socks5_decided_is_final` (and `…_tunnel_inv`, `…_wait_is_prefix_closed`, `…_undecided_before_end`); `c02_generated_socks5_udp_roundtrip`.
 -/
 namespace Octo.Socks5Gen
 open Octo Octo.PWGen Octo.AddrGen
@@ -299,8 +299,8 @@ theorem c13_generated_socks5_decided_is_final (ov : Bool) (greeting request more
   rw [socks5HandshakeGen_eq ov greeting (request ++ more) bound hg hr]
   exact Hs.c13_socks5_decided_is_final greeting request more (toAddr bound) h
 
-/-- **never early**: if the handshake over the generated code opens a tunnel having consumed `n` bytes in all, then on every
-prefix of the request that ends before the `n`-th byte it asked for more (`c13_socks5_undecided_before_end` carried over) -/
+/-- the same, read the other way: while a longer request is still undecided, so was every prefix
+(`c13_socks5_wait_is_prefix_closed` carried over) -/
 theorem c13_generated_socks5_wait_is_prefix_closed (ov : Bool) (greeting request more : Bytes) (bound : Address)
     (hg : greeting.length < 2 ^ 64) (hr : (request ++ more).length < 2 ^ 64)
     (h : socks5HandshakeGen ov greeting (request ++ more) bound = .wait) :
@@ -309,6 +309,18 @@ theorem c13_generated_socks5_wait_is_prefix_closed (ov : Bool) (greeting request
   rw [socks5HandshakeGen_eq ov greeting (request ++ more) bound hg hr] at h
   rw [socks5HandshakeGen_eq ov greeting request bound hg hr']
   exact Hs.c13_socks5_wait_is_prefix_closed greeting request more (toAddr bound) h
+
+/-- **never early**: if the handshake over the generated code opens a tunnel having consumed `n` bytes in all, then on every
+prefix of the request that ends before the `n`-th byte it asked for more (`c13_socks5_undecided_before_end` carried over) -/
+theorem c13_generated_socks5_undecided_before_end (ov : Bool) (greeting request more : Bytes) (bound : Address) (a : Addr) (n : Nat)
+    (r : Bytes) (hg : greeting.length < 2 ^ 64) (hr : (request ++ more).length < 2 ^ 64)
+    (h : socks5HandshakeGen ov greeting (request ++ more) bound = .tunnel a n r)
+    (hshort : greeting.length + request.length < n) :
+    socks5HandshakeGen ov greeting request bound = .wait := by
+  have hr' : request.length < 2 ^ 64 := by rw [List.length_append] at hr; omega
+  rw [socks5HandshakeGen_eq ov greeting (request ++ more) bound hg hr] at h
+  rw [socks5HandshakeGen_eq ov greeting request bound hg hr']
+  exact Hs.c13_socks5_undecided_before_end greeting request more (toAddr bound) a n r h hshort
 
 /-! ### (c) corollaries: the UDP header round trip -/
 
@@ -383,6 +395,10 @@ example : socks5HandshakeGen true exGreeting [5, 2, 0, 1, 10, 0, 0, 1, 0, 80] ex
     .refused [5, 0, 5, 0, 0, 1, 127, 0, 0, 1, 4, 56] := by decide
 example : socks5HandshakeGen true exGreeting (exRequest.take 7) exBound = .wait := by decide
 example : socks5HandshakeGen true [5, 2, 0] exRequest exBound = .wait := by decide
+-- the hypotheses of `c13_generated_socks5_undecided_before_end`: a tunnel after 17 bytes, a prefix that ends before them
+example : socks5HandshakeGen true exGreeting (exRequest.take 7 ++ exRequest.drop 7) exBound =
+      .tunnel (.domain [101, 120, 46, 111, 114, 103] 443) 17 [5, 0, 5, 0, 0, 1, 127, 0, 0, 1, 4, 56] ∧
+    exGreeting.length + (exRequest.take 7).length < 17 := by decide
 example : socks5HandshakeGen false exGreeting [5, 1, 0, 3, 0, 1, 187] exBound = .refused [5, 0, 5, 0, 0, 1, 127, 0, 0, 1, 4, 56] := by decide
 
 end Octo.Socks5Gen
